@@ -317,9 +317,44 @@ func (e *Engine) inRepo(fn *ssa.Function) bool {
 	return strings.HasPrefix(p, e.modPath) || e.inlinePkgs[p]
 }
 
+// atCallObligations: argument-flow clauses of the enclosing function's contract.
+func (fr *Frame) atCallObligations(key string, args []Val, reach string, h Heap) {
+	u := fr.u
+	if fr.ct == nil {
+		return
+	}
+	for _, ac := range fr.ct.AtCalls {
+		if ac.Callee != key || !u.active(ac.Clause.Props) {
+			continue
+		}
+		if len(args) == 0 {
+			continue
+		}
+		lit, isLit := "", false
+		for l, name := range u.so.strLits {
+			if name == args[0].T {
+				lit, isLit = l, true
+			}
+		}
+		if !isLit || !ac.Re.MatchString(lit) {
+			continue
+		}
+		env := fr.baseEnv(h)
+		for i, a := range args {
+			env.vars[fmt.Sprintf("a%d", i)] = a
+		}
+		for _, part := range splitConj(ac.Clause.Expr) {
+			o := u.oblig("callsite", fmt.Sprintf("at call of %s(%q ...): %s", shortKey(key), trunc(lit, 40), exprString(part)), implies(reach, env.evalBool(part)), ac.Clause.Props)
+			o.Pos = ac.Clause.Where
+		}
+		fr.atCallSeen[ac] = true
+	}
+}
+
 func (fr *Frame) callStatic(callee *ssa.Function, cc *ssa.CallCommon, args []Val, reach string, h Heap) []Val {
 	u := fr.u
 	key := callee.String()
+	fr.atCallObligations(key, args, reach, h)
 	if callee.Name() == "init" && callee.Synthetic != "" {
 		// initialisation of an imported package: no effect on this package's state
 		u.assumed["package initialisers of imported packages do not touch this repository's package variables"] = true
